@@ -62,6 +62,10 @@ def gen_case(rng: random.Random, tier: str):
             ops.append("parse2")  # the same bytes once more: anything remembered from the first parse is still "valid"
         elif r < 0.88:
             ops.append(rng.choice(["dumps", "deref", "cdumps"]))
+        if rng.random() < 0.3:
+            ops.append("misc")
+        if rng.random() < 0.3:
+            ops.insert(1, "uassign")
         threads.append({"data_seed": rng.getrandbits(32), "data": None, "ops": ops, "root": rng.randrange(8)})
     return {"cfg": cfg, "defs": defs, "threads": threads, "sched_seed": rng.getrandbits(32),
             "n_sched": 16 if tier == "quick" else 60, "trace_enum": rng.random() < 0.3, "opcodes": False,
@@ -89,6 +93,27 @@ def _walk_pointers(v, out, depth=0):
     elif isinstance(v, list):
         for e in v[:4]:
             _walk_pointers(e, out, depth + 1)
+
+
+def _walk_unions(v, out, depth=0):
+    from dissect.cstruct.types import Structure, Union
+    from dissect.cstruct.types.structure import UnionProxy
+
+    if depth > 5 or len(out) >= 4:
+        return
+    if isinstance(v, UnionProxy):
+        return
+    if isinstance(v, Union):
+        out.append(v)
+    if isinstance(v, Structure):
+        for f in type(v).__fields__:
+            try:
+                _walk_unions(getattr(v, f._name), out, depth + 1)
+            except AttributeError:
+                pass
+    elif isinstance(v, list):
+        for e in v[:2]:
+            _walk_unions(e, out, depth + 1)
 
 
 def _root_of(cs, case, th):
@@ -134,6 +159,41 @@ def make_script(root, th, mark=None):
                     out = []
                     _walk_pointers(v, out)
                     res.append(("val", out, stream.tell()))
+                elif op == "uassign":
+                    # assignment to members of the unions inside the parsed value (rebuilds the union's buffer and re-reads
+                    # its members), then the whole value is observed and dumped
+                    us = []
+                    _walk_unions(v, us)
+                    out = []
+                    for u in us[:3]:
+                        for f in type(u).__fields__:
+                            x = getattr(u, f._name, None)
+                            if isinstance(x, int) and not isinstance(x, bool) and not hasattr(x, "name"):
+                                try:
+                                    setattr(u, f._name, type(x)(int.__index__(x) ^ 1) if type(x) is not int else x ^ 1)
+                                    out.append("set")
+                                except Exception as e:  # noqa: BLE001
+                                    out.append(type(e).__name__)
+                                break
+                    out.append(observe(v, sizes=False))
+                    try:
+                        out.append(v.dumps().hex())
+                    except Exception as e:  # noqa: BLE001
+                        out.append(type(e).__name__)
+                    res.append(("val", out))
+                elif op == "misc":
+                    # other entry points on the shared types: default and keyword construction, comparison, hash, truth
+                    # value, repr, the size of the class, an array type of it created at run time
+                    T = type(v)
+                    out = []
+                    for fn in (lambda: observe(T()), lambda: T().dumps().hex(), lambda: [v == T(io.BytesIO(data)), v != T(), bool(v)],
+                               lambda: hash(v) == hash(T(io.BytesIO(data))), lambda: repr(v), lambda: len(T),
+                               lambda: observe(T[2](io.BytesIO(data + data))), lambda: observe(T(**{T.__fields__[0]._name: getattr(v, T.__fields__[0]._name)}))):
+                        try:
+                            out.append(fn())
+                        except Exception as e:  # noqa: BLE001
+                            out.append(type(e).__name__)
+                    res.append(("val", out))
             except HarnessError:
                 raise
             except Exception as e:  # noqa: BLE001
